@@ -173,6 +173,10 @@ def observe(be, m2b, model, tag):
             for a_, b_ in ((x, y), (y, x)):
                 if be.call('edge_type_opt', a_, b_) != minirust.NONE:
                     fail('edge_type_opt(%d, %d) is not None although %d is not in the graph' % (a_, b_, x))
+    # vindex() is the next FRESH vertex index: never the name of a vertex of the graph, and above every one of them (a named insertion at vindex() succeeds)
+    vx = be.call('vindex')
+    if not (isinstance(vx, int) and not isinstance(vx, bool)) or vx in b2m or (b2m and vx <= max(b2m)):
+        fail('vindex() = %s is not a fresh vertex index: the graph has the vertices %s' % (vx, sorted(b2m)))
     # searches: find_vertex / find_edge visit exactly the vertices / edges of the graph (each edge once, smaller name first)
     it = _interp(be.facts)
     it.self_ty.append(be.ty)
